@@ -941,6 +941,22 @@ def run_sequence(case):
         return [{"kind": "machinery", "case": case, "detail": "world construction failed: %r" % (e,)}]
     heap = Heap()
     n_ok = 0
+    # "repeating a deterministic evaluation returns identical results" across the history, not only back to back:
+    # memo of cheap deterministic evaluations (and one pdf probe per initial model, incl. rows outside the support),
+    # re-evaluated after the last op unless the model was fitted in between
+    memo = []
+    for mi, lm0 in enumerate(w.models):
+        try:
+            xp = w.arr("S%d" % mi, "neg", 5)
+            def callp(mm=lm0.obj, xx=xp):
+                # numpy's default floating-point error handling (the harness otherwise silences it): rows outside the
+                # support make the evaluation emit RuntimeWarnings, as it does for a user
+                with np.errstate(all="warn"):
+                    return mm.pdf(xx)
+            r0 = timed_call(callp, OP_BUDGET)
+            memo.append({"step": -1, "m": mi, "entry": type(lm0.obj).__name__ + ".pdf", "call": callp, "first": r0, "valid": True})
+        except Exception:  # noqa: BLE001
+            pass
     try:
         for step, op in enumerate(case["ops"]):
             try:
@@ -982,6 +998,8 @@ def run_sequence(case):
                     r2 = again.coordinates if ex.get("post") == "contour" else again
                     if not same_result(r1, r2):
                         det_bad = "second evaluation differs from the first"
+                    elif "m" in op and op["op"] in ("pdf", "icdf", "cond", "marginal", "sample") and time.time() - t_op < 1.0:
+                        memo.append({"step": step, "m": op["m"], "entry": ex["entry"], "call": ex["call"], "first": r1, "valid": True})
                 except Exception as e:  # noqa: BLE001
                     det_bad = "second evaluation raised %s although the first succeeded" % type(e).__name__
                 again = None
@@ -993,6 +1011,9 @@ def run_sequence(case):
                 w.contours.append({"obj": result, "m": op["m"], "kind": op["kind"]})
             if ex.get("post") == "fit":
                 lm.fitted_with = ex["fit_data"]
+                for e in memo:
+                    if e["m"] == op["m"]:
+                        e["valid"] = False
             result = None
             # observe "after": the old roots and whatever is a root now
             n_before, writes, allocs = heap.scan(root_objs + [o for _, _, o in w.roots()])
@@ -1036,6 +1057,17 @@ def run_sequence(case):
                 n_ok += 1
             if ex.get("post") == "fit":
                 cond_fit_check(records, case, step, lm, tmpl_before, fd_used)
+        late = [e for e in memo if e["valid"]]
+        for e in late[:2] + late[2:][-4:]:
+            detail = None
+            try:
+                r2 = timed_call(e["call"], OP_BUDGET)
+                if not same_result(e["first"], r2):
+                    detail = "evaluation of step %d repeated after the rest of the history differs from its first result" % e["step"]
+            except Exception as ex2:  # noqa: BLE001
+                detail = ("evaluation of step %d succeeded first, but raised %s: %s when repeated after the rest of the history"
+                          % (e["step"], type(ex2).__name__, str(ex2)[:100]))
+            records.append({"kind": "late", "case": case, "step": e["step"], "entry": e["entry"], "detail": detail})
     finally:
         w.close()
     records.append({"kind": "seq", "case": case, "n_ok": n_ok, "n_models": len(w.models),
@@ -1445,6 +1477,10 @@ def process(ck, all_records):
             ck.count("ops_executed_without_exception", r["n_ok"])
             ck.count("max_objects", 0)
             ck.dist["max_objects"] = max(ck.dist.get("max_objects", 0), r["n_objects"])
+        elif r["kind"] == "late":
+            ck.count("repeat_after_history_checked")
+            if r["detail"]:
+                ck.fail(sig(r["entry"], "repeat_identical_after_history"), slim(r["case"]), r["detail"])
         elif r["kind"] == "skip":
             ck.count("op_skipped_precondition")
         elif r["kind"] == "machinery":
